@@ -5,6 +5,7 @@
 -/
 import Ladybug.DrvCore
 import Ladybug.Model.Epw
+import Ladybug.Model.EpwObj
 
 open Drv Epw
 
@@ -110,6 +111,63 @@ def runHist (f : File Nat) (ops : List String) : List String :=
           else acc ++ ["bad-op"]
   go (ops.length + 1) ⟨false, false, false, none, 35, []⟩ ops []
 
+/-! ### histories on the object state machine (Model/EpwObj.lean): header slots hold ids -/
+
+def fpObj (o : Obj Nat Nat) : String :=
+  fp o.st ++ "s" ++ "-".intercalate (o.slots.map toString)
+
+/-- One op token of the `obj` protocol. -/
+def parseObjOp (t : String) : Option (Op Nat Nat) :=
+  let parts := t.splitOn ":"
+  match parts with
+  | ["H"] => some .header
+  | ["L"] => some .load
+  | ["I"] => some .toIp
+  | ["S"] => some .toSi
+  | ["W"] => some .write
+  | ["M"] => some .mos
+  | ["D"] => some .dict
+  | ["E"] => some (.wea none)
+  | ["E", hs] => (if hs = "" then some [] else (hs.splitOn ",").mapM String.toNat?).map fun l => .wea (some l)
+  | ["G", k] => k.toNat?.map .field
+  | ["F", k] => k.toNat?.map .writeShort
+  | ["T", j, v, ok] =>
+    match j.toNat?, v.toNat?, bool? ok with
+    | some j, some v, some ok => some (.set j v ok)
+    | _, _, _ => none
+  | ["V", k, tag, len] =>
+    match k.toNat?, tag.toNat?, len.toNat? with
+    | some k, some tag, some len => some (.setValues k ((List.range len).map fun i => tag * 1000000 + i + 1))
+    | _, _, _ => none
+  | _ => none
+
+def showOut (o : Out Nat Nat Nat) : String :=
+  match o with
+  | .none => "ok"
+  | .err e => showErr e
+  | .hdr _ _ => "ok"
+  | .col c => s!"ok{colFp c}"
+  | .text _ _ rows => s!"ok{rows.length}:{hashList (rows.map hashList)}"
+  | .wea ls => s!"ok{ls.length}:{hashList (ls.map fun (m, d, h, a, b) => hashList [m, d, h, a, b])}"
+  | .mos _ t => s!"ok{t.length}:{hashList (t.mapIdx fun i l => hashList (mosTime i :: l))}"
+  | .dict _ d =>
+    match d.fromDict with
+    | .ok s2 => "ok:" ++ fp s2
+    | .error e => showErr e
+
+/-- Run a history on the state machine; one item per op: `<output>@<state fingerprint>`. -/
+def runObj (src : Src Nat Nat) (o : Obj Nat Nat) (ops : List String) : List String :=
+  let rec go (o : Obj Nat Nat) (ops : List String) (acc : List String) : List String :=
+    match ops with
+    | [] => acc
+    | t :: rest =>
+      match parseObjOp t with
+      | none => acc ++ ["bad-op"]
+      | some op =>
+        let r := step idCodec pit idConv src o op
+        go r.1 rest (acc ++ [showOut r.2 ++ "@" ++ fpObj r.1])
+  go o ops []
+
 def showCols (cols : List (List Cell)) : String :=
   ";".intercalate (cols.map fun c => ",".intercalate (c.map showCell))
 
@@ -192,6 +250,18 @@ def handle (toks : List String) : String :=
     | some l, some nl, some nc, some bl =>
       let blank := if bl < 0 then none else some bl.toNat
       joinSp (runHist ⟨l, synthLines nl nc blank⟩ ops)
+    | _, _, _, _ => "bad-op"
+  | "obj" :: lp :: nl :: nc :: bl :: ctor :: ops =>
+    match leapTok? lp, nl.toNat?, nc.toNat?, bl.toInt? with
+    | some l, some nl, some nc, some bl =>
+      let blank := if bl < 0 then none else some bl.toNat
+      match importBody idCodec pit l (synthLines nl nc blank) with
+      | .error e => showErr e
+      | .ok b =>
+        let src : Src Nat Nat := ⟨l, b, List.replicate 11 0⟩
+        let o0 : Obj Nat Nat := Obj.lazy (List.replicate 11 999)
+        let o := if ctor = "P" then o0 else o0.loadData src
+        joinSp (runObj src o ops)
     | _, _, _, _ => "bad-op"
   | _ => "bad-op"
 
